@@ -410,3 +410,34 @@ def r_progress( ctx ):
     else:
         res.bad( src, dl, 'dfa_base.delegate', 'a sub-state that cannot transition must end the cycle, not be re-run (it would consume again)' )
     return res
+
+
+@rule( 'W-ASSERT', props=( 'C03', 'C04', 'C05', 'C07', 'C08', 'C10', 'C12', 'C15', 'C16', 'C19' ), floor=200 )
+def w_assert( ctx ):
+    """validation in this code base is `assert <condition>, <message>` inside a status-converting try: every assert must be able to fail.
+    An assert whose test is a non-empty tuple / list / dict display or a truthy constant - `assert ( condition, "message" )`, the
+    parenthesised form - is always true: the refusal it stood for is gone ( a request beyond the end of a tag, a sub-element offset, a
+    mismatching route path ... is served ).  Every assert of the analysed modules is examined."""
+    res = Result( 'W-ASSERT' )
+    n = 0
+    for rel in ( 'automata.py', 'dotdict.py', 'misc.py', 'server/enip/parser.py', 'server/enip/device.py', 'server/enip/logix.py', 'server/enip/ucmm.py', 'server/enip/client.py',
+                 'server/enip/main.py', 'server/enip/get_attribute.py', 'server/enip/defaults.py', 'server/network.py', 'server/tnet.py', 'server/tnetstrings.py',
+                 'history/files.py', 'history/times.py', 'remote/plc_modbus.py' ):
+        if not ctx.model.exists( rel ):
+            raise AnalysisError( 'W-ASSERT: %s absent' % rel )
+        src = ctx.src( rel )
+        for a in ast.walk( src.tree ):
+            if not isinstance( a, ast.Assert ):
+                continue
+            n += 1
+            t = a.test
+            always = ( isinstance( t, ( ast.Tuple, ast.List, ast.Set )) and t.elts ) or ( isinstance( t, ast.Dict ) and t.keys ) \
+                or ( isinstance( t, ast.Constant ) and bool( t.value ) and t.value is not True ) or isinstance( t, ast.JoinedStr )
+            if always:
+                res.bad( src, a, 'assert on a %s: %s' % ( type( t ).__name__.lower(), norm_text( ast.unparse( t ))[:70] ),
+                         'the test is a non-empty display / constant and always true ( parenthesised `assert ( condition, message )` ): the condition is never enforced, what it refused is now accepted' )
+    res.cells = n
+    if not res.findings:
+        res.ok( src, src.tree, 'none of the %d asserts of the analysed modules is constantly true' % n )
+        res.instances.extend( dict( rule='W-ASSERT', site='(count)', fact='assert #%d' % k, verdict='holds', nontrivial=False ) for k in range( n - 1 ))
+    return res
